@@ -723,6 +723,9 @@ pub fn classify_deadlock(ctx: &Arc<Ctx>) -> Failure {
         if pending.iter().any(|i| ctx.calls[*i].gate.is_some() && ctx.calls[*i].start.load(Ordering::SeqCst) != 0) { add("C06"); }
         if ctx.prog.objects > 1 { add("C10"); }
     }
+    // C09: a Busy try_sync must leave the object undisturbed; a hang on an object on which try_sync answered Busy implicates it
+    let stuck_objs: Vec<usize> = status.values().map(|(_, _, o)| *o).chain(ctx.calls.iter().filter(|c| c.accepted.load(Ordering::SeqCst) && c.end.load(Ordering::SeqCst) == 0).map(|c| c.obj)).collect();
+    if ctx.calls.iter().any(|c| c.kind == "trysync" && c.busy.load(Ordering::SeqCst) && stuck_objs.contains(&c.obj)) { add("C09"); }
     if props.is_empty() { props.push("C03"); }
     Failure { props, what }
 }
